@@ -407,10 +407,17 @@ func c06Program(p *prog, steps int) {
 			bad := []any{1, 2.5, nil, true, []byte("k"), at.NewList(1, 2), at.NewObject("a", 1), time.Second, errors.New("k"), []string{"k"}, 'k', struct{}{}, keyName(k0), keyName(""), keyText{k0}, &k0}[r.Intn(16)]
 			var args []any
 			pos := r.Intn(2)
+			var bv any = 1
+			if r.Chance(1, 3) {
+				bv = []any{nil, bad, "", 0, false}[r.Intn(5)] // a pair that looks unused (nil, nil), a key that is its own value
+				if bad == nil {
+					bv = nil
+				}
+			}
 			if pos == 0 {
-				args = []any{bad, 1, k0, h.Arg(v0)}
+				args = []any{bad, bv, k0, h.Arg(v0)}
 			} else {
-				args = []any{k0, h.Arg(v0), bad, 1}
+				args = []any{k0, h.Arg(v0), bad, bv}
 			}
 			p.op = "Set-badkey"
 			p.trace = append(p.trace, fmt.Sprintf("%s.Set(%v) [non-string key at pair %d]", o.Name(), args, pos))
